@@ -34,7 +34,41 @@ const (
 	MTOCIEmpty           = "application/vnd.oci.empty.v1+json"
 	MTArtifactManifest   = "application/vnd.oci.artifact.manifest.v1+json"
 	MTOctet              = "application/octet-stream"
+	MTTree               = "application/vnd.verif.tree.v1+json"
 )
+
+// TreeDoc is the content of a Tree node.
+type TreeDoc struct {
+	Children []ocispec.Descriptor `json:"children"`
+	Salt     uint64               `json:"salt"`
+}
+
+// TreeSuccessors is a FindSuccessors function that follows Tree nodes (read
+// through the given fetcher) and defers to content.Successors otherwise.
+func TreeSuccessors(ctx context.Context, fetcher content.Fetcher, desc ocispec.Descriptor) ([]ocispec.Descriptor, error) {
+	if desc.MediaType != MTTree {
+		return content.Successors(ctx, fetcher, desc)
+	}
+	b, err := content.FetchAll(ctx, fetcher, desc)
+	if err != nil {
+		return nil, err
+	}
+	var doc TreeDoc
+	if err := json.Unmarshal(b, &doc); err != nil {
+		return nil, err
+	}
+	return doc.Children, nil
+}
+
+// HasTrees reports whether the DAG has Tree nodes.
+func (g *DAG) HasTrees() bool {
+	for _, n := range g.Nodes {
+		if n.Kind == Tree {
+			return true
+		}
+	}
+	return false
+}
 
 // Kind classifies a node.
 type Kind int
@@ -47,14 +81,15 @@ const (
 	Index          // OCI image index
 	DockerList     // Docker manifest list
 	Artifact       // ORAS artifact manifest
+	Tree           // interior node of a media type no store knows: only a custom FindSuccessors follows its links
 )
 
 func (k Kind) String() string {
-	return [...]string{"blob", "config", "manifest", "dockermanifest", "index", "dockerlist", "artifact"}[k]
+	return [...]string{"blob", "config", "manifest", "dockermanifest", "index", "dockerlist", "artifact", "tree"}[k]
 }
 
 // IsManifestKind reports whether nodes of kind k have successors to decode.
-func (k Kind) IsManifestKind() bool { return k >= Manifest }
+func (k Kind) IsManifestKind() bool { return k >= Manifest && k != Tree }
 
 // Node is one node of a generated DAG.
 type Node struct {
@@ -233,6 +268,7 @@ type Opts struct {
 	Titles                    bool // some layer descriptors carry a title annotation (file-store names), one fixed name per blob
 	TitleClash                bool // with Titles: two different blobs share one title (a file store must refuse the second)
 	SHA512                    bool // some blobs are addressed by sha512 digests (long blob paths: PAX records in tar archives)
+	Trees                     int  // number of Tree nodes added on top (custom FindSuccessors needed to traverse them)
 	URLsOnLayers              bool // some ordinary (distributable) layer and manifest descriptors carry the optional urls property
 }
 
@@ -616,6 +652,23 @@ func Generate(rng *rand.Rand, o Opts) *DAG {
 		default:
 			buildImage(false, subject, absent)
 		}
+	}
+	for i := 0; i < o.Trees; i++ {
+		all := b.nodesOf(func(*Node) bool { return true })
+		k := 1 + rng.IntN(3)
+		doc := TreeDoc{Salt: rng.Uint64()}
+		n := &Node{Kind: Tree, Desc: ocispec.Descriptor{MediaType: MTTree}, Subject: -1}
+		for j := 0; j < k; j++ {
+			id := b.pick(all)
+			if rng.IntN(2) == 0 {
+				// prefer the top of what exists so far (other trees, indexes, referrers)
+				id = all[len(all)-1-rng.IntN(1+len(all)/4)]
+			}
+			doc.Children = append(doc.Children, b.descOf(id))
+			n.Succ = append(n.Succ, id)
+		}
+		n.Bytes, _ = json.Marshal(doc)
+		b.add(n)
 	}
 	if o.ManifestAsBlob {
 		ms := b.nodesOf(func(n *Node) bool { return n.Kind == Manifest && len(n.Succ) > 0 })
